@@ -1,6 +1,8 @@
 """C16 serialization shape across any history of additions (add_entity / encode_protected)."""
 import collections
 import itertools
+import os
+import vlib
 import json
 import random
 
@@ -251,9 +253,65 @@ def usable_after_additions(ctx, dist):
     return len(req) + len(dec)
 
 
+def cli_additions(ctx, dist):
+    """`jose jws sig` adding a signature to an EXISTING JWS given in every input form (inline JSON, JSON file, compact
+    string, compact file, compact on stdin): general form only, the earlier entry moved unchanged, both keys verify"""
+    import subprocess
+    import tempfile
+    import hashlib
+    import hmac as pyhmac
+    import jwsgen as G
+    rep = ctx["rep"]
+    bdir = ctx["bdir"]
+    rnd = random.Random(ctx["seed"] + 161)
+    J = G.dumps
+    k1, k2 = G.oct_key(rnd, 32), G.oct_key(rnd, 48)
+    prot = G.b64(J({"alg": "HS256"}).encode())
+    pay = G.b64(b"c16 cli")
+    sig = G.b64(pyhmac.new(G.unb64(k1["k"]), (prot + "." + pay).encode(), hashlib.sha256).digest())
+    flat = {"payload": pay, "protected": prot, "signature": sig}
+    compact = "%s.%s.%s" % (prot, pay, sig)
+    env = dict(os.environ, ASAN_OPTIONS="detect_leaks=0")
+    n = 0
+    with tempfile.TemporaryDirectory(dir=vlib.WORK) as d:
+        open(os.path.join(d, "k2.jwk"), "w").write(J(k2))
+        open(os.path.join(d, "flat.json"), "w").write(J(flat))
+        open(os.path.join(d, "tok.compact"), "w").write(compact)
+        forms = [("inline JSON", ["-i", J(flat)], None), ("JSON file", ["-i", "flat.json"], None), ("compact string", ["-i", compact], None),
+                 ("compact file", ["-i", "tok.compact"], None), ("compact on stdin", ["-i", "-"], compact), ("JSON on stdin", ["-i", "-"], J(flat))]
+        vcases, vmeta = [], []
+        for what, args, stdin in forms:
+            n += 1
+            r = subprocess.run([os.path.join(bdir, "jose"), "jws", "sig"] + args + ["-k", "k2.jwk"], cwd=d, input=stdin, capture_output=True, text=True, env=env)
+            cmd = "jose jws sig %s -k k2.jwk%s" % (" ".join("'%s'" % a for a in args), " < (the token)" if stdin else "")
+            if r.returncode != 0:
+                rep.violation("cli-add:failed:" + what, "`%s` (adding a signature to an existing JWS, %s) exits %d" % (cmd, what, r.returncode), {"stderr": r.stderr[:300]})
+                continue
+            try:
+                out = json.loads(r.stdout)
+            except Exception:
+                rep.violation("cli-add:not-json:" + what, "`%s` does not print a JSON object" % cmd, {"stdout": r.stdout[:300]})
+                continue
+            extra = [m for m in ("signature", "protected", "header") if m in out]
+            sigs = out.get("signatures")
+            if extra or not isinstance(sigs, list) or len(sigs) != 2:
+                rep.violation("cli-add:shape:" + what, "`%s`: the result is not the general form with two entries (top-level %s, signatures: %s)" % (cmd, extra, J(sigs)[:200]), {"stdout": r.stdout[:800]})
+                continue
+            if sigs[0] != {"protected": prot, "signature": sig}:
+                rep.violation("cli-add:earlier-entry-changed:" + what, "`%s`: the entry added earlier was not moved unchanged: %s" % (cmd, J(sigs[0])[:200]), {"stdout": r.stdout[:800]})
+                continue
+            vcases.append("jwsver\t%s\t-\t%s\t1" % (J(out), J([k1, k2])))
+            vmeta.append((what, cmd))
+        for c, o, (what, cmd) in zip(vcases, G.harness(bdir, vcases), vmeta):
+            if o != "T":
+                rep.violation("cli-add:unverifiable:" + what, "`%s`: not every signature of the result verifies" % cmd, {"case": c[:1500]})
+    dist["CLI: second signature added to an existing JWS, six input forms"] = n
+    return n
+
+
 def correspond(ctx):
     cases, dist = gen(ctx["tier"], ctx["seed"])
-    n = usable_after_additions(ctx, dist)
+    n = usable_after_additions(ctx, dist) + cli_additions(ctx, dist)
     st = standard_part(ctx, cases, dist)
     st["evaluations"] += n
     return st
